@@ -24,6 +24,9 @@ pub struct Scn {
     pub models: [&'static str; 2],
     /// (process index, action kind) in issue order
     pub script: Vec<(usize, &'static str)>,
+    /// the process is dropped from the cache right after each client action on it, while the work
+    /// that action queued is still in flight: it ends while it is not cached
+    pub evict: bool,
 }
 
 pub fn scenarios(tier: Tier) -> Vec<Scn> {
@@ -45,8 +48,20 @@ pub fn scenarios(tier: Tier) -> Vec<Scn> {
                                 keep,
                                 sqlite,
                                 models,
-                                script,
+                                script: script.clone(),
+                                evict: false,
                             });
+                            // sequential processes only: an eviction under concurrently open regions is the C13 finding
+                            if mi == 0 && e1 == e2 && first == 0 {
+                                v.push(Scn {
+                                    id: format!("retain/{}{}/m{mi}/{e1}+{e2}/evicted-in-flight", if sqlite { "sqlite" } else { "memory" }, if keep { "+keep" } else { "" }),
+                                    keep,
+                                    sqlite,
+                                    models,
+                                    script,
+                                    evict: true,
+                                });
+                            }
                         }
                     }
                 }
@@ -201,6 +216,9 @@ pub fn run_one(ch: &mut Chooser, sc: &Scn, want_log: bool) -> RunObs {
         let was_ended = ended[pi];
         ch.label(|| format!("client {kind} {}:{tid}", pids[pi]));
         let r = sess.act(kind, pids[pi], &tid, &vars_of(&opts));
+        if sc.evict {
+            sess.engine.verif().uncache(pids[pi]);
+        }
         if was_ended && r.is_ok() {
             push(
                 format!("acted-on-finished/{}/{kind}", if sc.keep { "keep" } else { "default" }),
